@@ -49,6 +49,7 @@ fn main() {
         let code = match id.as_str() {
             "C12" => props::c12::replay(case),
             "C13" => props::c13::replay(case),
+            "C14" => props::c14::replay(case),
             _ => {
                 eprintln!("no replay for {id}");
                 2
@@ -59,6 +60,7 @@ fn main() {
     let code = match id.as_str() {
         "C12" => props::c12::run(tier),
         "C13" => props::c13::run(tier),
+        "C14" => props::c14::run(tier),
         _ => {
             eprintln!("unknown property {id}");
             2
